@@ -8,6 +8,9 @@ S2 == [nodes |-> Nodes1, firstFree |-> 9, paths |-> [p1 |-> <<"la", "x", "y">>, 
 S3 == [nodes |-> Nodes1, firstFree |-> 9, paths |-> [p1 |-> <<"n1", "n2", "n3">>, p2 |-> <<"n1", "n2">>]]
 S4 == [nodes |-> Nodes1, firstFree |-> 9, paths |-> [p1 |-> <<"a", "..", "a", "b", "q", "r">>, p2 |-> <<"a", "b", "q">>]]
 S5 == [nodes |-> Nodes1, firstFree |-> 9, paths |-> [p1 |-> <<"n1", "n2">>, p2 |-> <<"n1", "n2">>, p3 |-> <<"n1", "m">>]]
+\* dot-links in the existing prefix (the SymlinkStack of the emulated backend must drop "." components)
+Nodes2 == Nodes1 \o << N(9, R, "ld", "lnk", <<".", "a", ".", "b">>), N(10, 5, "up", "lnk", <<"..", "a", "b", ".">>) >>
+S7 == [nodes |-> Nodes2, firstFree |-> 11, paths |-> [p1 |-> <<"ld", "x", "y">>, p2 |-> <<"a", "up", "x", "z">>]]
 \* a missing component followed by "..": safe only because ".." is refused in the not-yet-existing tail
 S6 == [nodes |-> Nodes1, firstFree |-> 9, paths |-> [p1 |-> <<"a", "nx", "..", "..", "..", "pwned">>, p2 |-> <<"a">>]]
 const_NoNames == {}
